@@ -4,6 +4,7 @@ A schedule is a composition of the stream length into chunk sizes (zeros are
 empty chunks).  It is stored run-length encoded: [[size, count], ...].
 """
 import errno
+import os
 
 from sim.core import StepCapExceeded, weighted
 
@@ -315,6 +316,24 @@ class SimFile:
 
     def close(self):
         self.closed += 1
+        fd = getattr(self, '_fd', None)
+        if fd is not None:
+            self._fd = None
+            try:
+                os.close(fd)
+            except OSError:
+                pass
+
+    def fileno(self):
+        """A descriptor of the real file of the same name and content, when
+        there is one (os.fstat(f.fileno()) then reports the right size);
+        like io.BytesIO, unsupported otherwise."""
+        if getattr(self, '_fd', None) is None:
+            if not (isinstance(self.name, str) and os.path.isfile(self.name)):
+                import io
+                raise io.UnsupportedOperation('fileno')
+            self._fd = os.open(self.name, os.O_RDONLY)
+        return self._fd
 
     def read(self, size=-1):
         if self.closed:
